@@ -219,12 +219,57 @@ pub fn cols_tok(cols: &[msi::Column]) -> String {
 pub fn rows_reply(rows: msi::Rows) -> String {
     let cols = cols_tok(rows.columns());
     let n = rows.len();
+    let names: Vec<String> = rows.columns().iter().map(|c| c.name().to_string()).collect();
     let mut parts: Vec<String> = vec![];
-    for row in rows {
+    // the read side of the API, checked against itself on every result: size hints while
+    // iterating, columns of a row = columns of the result, a value by column name = the value at
+    // the first column of exactly that name, has_column
+    let mut flaw: Option<String> = None;
+    let mut note = |f: String| {
+        if flaw.is_none() {
+            flaw = Some(f);
+        }
+    };
+    let mut rows = rows;
+    let mut left = n;
+    loop {
+        if rows.size_hint() != (left, Some(left)) {
+            note(format!("size_hint {:?} with {left} rows left", rows.size_hint()));
+        }
+        let row = match rows.next() {
+            Some(r) => r,
+            None => break,
+        };
+        left = left.saturating_sub(1);
+        if row.len() != names.len() || row.is_empty() != names.is_empty() {
+            note(format!("row of {} values for {} columns", row.len(), names.len()));
+        }
+        if row.columns().iter().map(|c| c.name()).ne(names.iter().map(|s| s.as_str())) {
+            note("columns of a row differ from the columns of the result".into());
+        }
+        for (i, nm) in names.iter().enumerate() {
+            let first = names.iter().position(|x| x == nm).unwrap();
+            if first == i && i < row.len() {
+                if !row.has_column(nm) {
+                    note(format!("has_column({nm:?}) is false"));
+                } else if row[nm.as_str()] != row[i] {
+                    note(format!("row[{nm:?}] is not the value of column {i}"));
+                }
+            }
+        }
+        if row.has_column("\u{1}no such column") {
+            note("has_column of an absent name is true".into());
+        }
         let vals: Vec<String> = (0..row.len()).map(|i| V::of_msi(&row[i]).tok()).collect();
         parts.push(format!("r:{}", vals.join(",")));
     }
-    format!("cols={} n={} {}", cols, n, parts.join(" "))
+    if left != 0 {
+        note(format!("iteration ended with {left} of the {n} reported rows missing"));
+    }
+    match flaw {
+        None => format!("cols={} n={} {}", cols, n, parts.join(" ")),
+        Some(f) => format!("cols={} n={} {} READAPI:{}", cols, n, parts.join(" "), f.replace(' ', "_")),
+    }
 }
 
 fn opt_str(s: Option<&str>) -> String {
